@@ -32,6 +32,32 @@ structure Codec (M B : Type) where
   dec : B → Option M
   inv : ∀ m, dec (enc m) = some m
 
+/-- One stage of the blob pipeline (`pickle.dumps`/`loads`, `gzip.compress`/`decompress`, `b85encode`/`b85decode`):
+an abstract pair with its round-trip law (trusted, runtime library). -/
+structure Stage (A B : Type) where
+  f : A → B
+  g : B → Option A
+  inv : ∀ a, g (f a) = some a
+
+/-- `map("".join, itertools.zip_longest(*([iter(pck)] * n), fillvalue=""))`: consecutive segments of `n` characters,
+the last one shorter (`fuel` = an upper bound of the number of segments). -/
+def segmentsAux (n : Nat) : Nat → List Char → List (List Char)
+  | 0, _ => []
+  | fuel + 1, s => if s.isEmpty then [] else s.take n :: segmentsAux n fuel (s.drop n)
+
+def segments (n : Nat) (s : List Char) : List (List Char) := segmentsAux n s.length s
+
+/-- `filter_pickle`: `b85encode(gzip.compress(pickle.dumps(x)))` cut into segments of 100 characters, one string
+literal per line (`"\n".join(repr(x) for x in segment_gen)`; the base85 alphabet has no quote or backslash). -/
+def filterPickle {M Y : Type} (pk : Stage M Y) (gz : Stage Y Y) (b85 : Stage Y (List Char)) (m : M) : List (List Char) :=
+  segments 100 (b85.f (gz.f (pk.f m)))
+
+/-- `_restore_constant_(<adjacent string literals>)`: Python concatenates the literals, then
+`pickle.loads(gzip.decompress(base64.b85decode(s)))`. -/
+def restoreConstant {M Y : Type} (pk : Stage M Y) (gz : Stage Y Y) (b85 : Stage Y (List Char)) (lits : List (List Char)) :
+    Option M :=
+  ((b85.g lits.flatten).bind gz.g).bind pk.g
+
 /-- One definition as the templates see it (`T`): namespace components *as generated* (stropped), short name,
 version, its PyDSDL model, and for a service type the models of the request and response types. -/
 structure Def (M : Type) where
@@ -47,9 +73,6 @@ def shortRef {M : Type} (d : Def M) : String := s!"{d.name}_{d.major}_{d.minor}"
 
 /-- The module generated for a definition (`full_reference_name`). -/
 def modulePath {M : Type} (d : Def M) : Path := d.ns ++ [shortRef d]
-
-/-- The alias name `Name_major` of `Namespace.j2`. -/
-def aliasName (name : String) (major : Nat) : String := s!"{name}_{major}"
 
 /-- What a generated file means to the importing interpreter, as far as `_MODEL_` is concerned.
 `module`: class path inside the module ↦ the blob its body hands to `_restore_constant_`;
